@@ -316,7 +316,7 @@ CHECKS["C09"] = {
              "satisfy pre, (inputs, outputs) is in post; SAFE/UNREACHABLE verdicts of the interleaved checker agree with the oracle."),
     "assumptions": ["functions do not assign their formal inputs (the summary design relates outputs to the formals' final values)",
                     "uninitialised callee locals are 0 in the oracle: one of the arbitrary values CrabIR allows, so the oracle is a subset of the real behaviours",
-                    "'inputs satisfy the precondition' is decided through the exported views of pre on domains whose export is exact (intervals, zones, octagons)"],
+                    "'inputs satisfy the precondition' is decided through the exported views of pre; the summary clause therefore only runs on domains whose export is exact (intervals, zones, octagons), not on term_int / ric (thorough), whose invariants and verdicts are still checked"],
     "level_text": "Complete enumeration of the stated program space and of the parameter menu; the concrete call semantics is tabulated to a fixpoint (all recursion depths within the box).",
     "level_note": "Executions whose values leave the box are dropped (the oracle only gets smaller). Functions have at most 2 inputs / 2 outputs.",
 }
